@@ -293,3 +293,89 @@ def init_constants(init_fn: Func, extra_env: dict | None = None) -> dict:
         if c > 1:
             env.pop(k, None)
     return env
+
+
+# ---------------------------------------------------------------------------
+# who-may-write (R2): mutations of module-level stores
+# ---------------------------------------------------------------------------
+
+MUTATORS = {'update', 'clear', 'pop', 'popitem', 'setdefault', 'subtract', 'add', 'discard', 'remove', 'append', 'extend', 'insert', 'appendleft', 'sort', 'reverse', '__setitem__', '__delitem__'}
+
+
+def _root_name(e):
+    while isinstance(e, (ast.Subscript, ast.Attribute)):
+        e = e.value
+    return e.id if isinstance(e, ast.Name) else None
+
+
+def local_aliases(fn: Func, names: set[str]) -> set[str]:
+    """local names bound (directly) to one of `names` inside fn, e.g. ignored_values = IGNORED_VALUES"""
+    out = set()
+    changed = True
+    while changed:
+        changed = False
+        for n in own_nodes(fn.node):
+            if isinstance(n, ast.Assign) and len(n.targets) == 1 and isinstance(n.targets[0], ast.Name):
+                v = n.value
+                if isinstance(v, ast.Name) and (v.id in names or v.id in out) and n.targets[0].id not in out and n.targets[0].id not in names:
+                    out.add(n.targets[0].id)
+                    changed = True
+                if isinstance(v, ast.Subscript) and _root_name(v) in (names | out) and n.targets[0].id not in out and n.targets[0].id not in names:
+                    out.add(n.targets[0].id)
+                    changed = True
+                if isinstance(v, ast.IfExp):
+                    for br in (v.body, v.orelse):
+                        if isinstance(br, ast.Name) and (br.id in names or br.id in out) and n.targets[0].id not in out:
+                            out.add(n.targets[0].id)
+                            changed = True
+    return out
+
+
+def mutations_of(fn: Func, names: set[str]) -> list[tuple[ast.AST, str]]:
+    """statements of fn that mutate an object reachable through one of `names` (or local aliases of them)"""
+    al = names | local_aliases(fn, names)
+    out = []
+    for n in own_nodes(fn.node):
+        if isinstance(n, ast.Assign):
+            for t in n.targets:
+                if isinstance(t, (ast.Subscript,)) and _root_name(t) in al:
+                    out.append((n, 'store'))
+                if isinstance(t, ast.Name) and t.id in names:
+                    # rebinding a module-level name matters only with `global`
+                    if any(isinstance(g, ast.Global) and t.id in g.names for g in own_nodes(fn.node)):
+                        if not (isinstance(n.value, ast.Name) and n.value.id in al):
+                            out.append((n, 'rebind'))
+        elif isinstance(n, ast.AugAssign):
+            if isinstance(n.target, ast.Subscript) and _root_name(n.target) in al:
+                out.append((n, 'augstore'))
+            if isinstance(n.target, ast.Name) and n.target.id in al:
+                out.append((n, 'augassign'))
+        elif isinstance(n, ast.Delete):
+            for t in n.targets:
+                if isinstance(t, ast.Subscript) and _root_name(t) in al:
+                    out.append((n, 'del'))
+        elif isinstance(n, ast.Call) and isinstance(n.func, ast.Attribute) and n.func.attr in MUTATORS and _root_name(n.func.value) in al:
+            # d[k].add(x) mutates an element of the store; d.add(x) the store itself
+            out.append((n, 'call:' + n.func.attr))
+    out.sort(key=lambda x: getattr(x[0], 'lineno', 0))
+    return out
+
+
+def package_mutations(repo, modname: str, names: set[str]):
+    """All (Func, node, kind) in the package that mutate module-level stores `names` of module `modname`
+    (by their own name inside that module, or through an imported alias elsewhere)."""
+    out = []
+    for m in repo.modules.values():
+        local = set()
+        if m.name == modname:
+            local = set(names)
+        for alias, target in m.imports.items():
+            for nm in names:
+                if target == f'{modname}.{nm}':
+                    local.add(alias)
+        if not local:
+            continue
+        for f in m.funcs.values():
+            for node, kind in mutations_of(f, local):
+                out.append((f, node, kind))
+    return out
